@@ -634,8 +634,14 @@ def writeonly_strategy(draw):
         pieces = [{'duration': draw(_f32v), 'polys': [[draw(_f32v) for _ in range(8)] for _ in range(4)]} for _ in range(n)]
         return {'kind': kind, 'pieces': pieces, 'start': draw(st.sampled_from([0, 0, 132, 1000]))}
     n = draw(st.integers(0, 8))
-    timings = [{'time': draw(st.integers(0, 255)), 'rgb': {'r': draw(st.integers(0, 255)), 'g': draw(st.integers(0, 255)), 'b': draw(st.integers(0, 255))},
+    lvl = st.one_of(st.integers(0, 255), st.sampled_from([0, 0, 0, 1, 2, 3, 4, 251, 252, 254, 255]))     # dark levels round to black in RGB565
+    tm = st.one_of(st.integers(0, 255), st.sampled_from([0, 0, 1, 255]))
+    timings = [{'time': draw(tm), 'rgb': {'r': draw(lvl), 'g': draw(lvl), 'b': draw(lvl)},
                 'leds': draw(st.integers(0, 15)), 'fade': draw(st.booleans()), 'rotate': draw(st.integers(0, 7))} for _ in range(n)]
+    for t in timings:
+        if draw(st.sampled_from([False, False, False, True])):
+            # a step that only switches LEDs / fading / rotation: no duration, colour black
+            t.update(time=0, rgb={'r': draw(st.integers(0, 4)), 'g': draw(st.integers(0, 2)), 'b': draw(st.integers(0, 4))})
     return {'kind': kind, 'timings': timings}
 
 
@@ -712,5 +718,5 @@ def subchecks(tier):
         Sub('paramfile', run_paramfile, strategy=paramfile_strategy(), examples={'quick': 150, 'thorough': 6000}),
         Sub('deckinfo', run_deck, strategy=deck_strategy(), examples={'quick': 200, 'thorough': 10000}),
         Sub('loco', run_loco, strategy=loco_strategy(), examples={'quick': 100, 'thorough': 4000}),
-        Sub('writeonly', run_writeonly, strategy=writeonly_strategy(), examples={'quick': 200, 'thorough': 8000}),
+        Sub('writeonly', run_writeonly, strategy=writeonly_strategy(), examples={'quick': 400, 'thorough': 12000}),
     ]
